@@ -2,6 +2,6 @@ SPECIFICATION Spec
 CONSTANTS
   Tier = "thorough"
   Emit = "accepted"
-  Laws = "c10"
-INVARIANT InvAlg
+  Laws = "all"
+INVARIANT InvCase
 CHECK_DEADLOCK FALSE
